@@ -113,7 +113,8 @@ type Clause struct {
 	E     Expr   // nil for modifies
 	Mods  []Expr // modifies list
 	Loop  int    // loop ordinal for invariant/decreases
-	Call  string // callee label for `at call`
+	Call  string // callee label for `at call` ("*" = every call)
+	Except []string // with Call == "*": callees not covered
 	Props []string
 	Text  string
 	Label string
@@ -301,7 +302,7 @@ var binPrec = map[string]int{
 }
 
 var clauseKeywords = map[string]bool{
-	"requires": true, "ensures": true, "modifies": true, "loop": true, "at": true,
+	"requires": true, "ensures": true, "establishes": true, "modifies": true, "loop": true, "at": true,
 	"property": true, "nopanic": true, "reveal": true, "pure": true, "func": true,
 	"ghost": true, "lemma": true, "axiom": true, "extern": true, "fresh": true,
 	"maypanic": true, "inline": true, "bounded": true, "opaque": true,
@@ -841,6 +842,25 @@ func (p *parser) parseClauses(fc *FuncContract) error {
 					p.next()
 				}
 			}
+		case "establishes":
+			// establishes [cond ==>] ghostPred(args): the DEFINING postcondition of a gate. The
+			// ghost predicate has no other source, so assuming it at call sites is a conservative
+			// extension; it is not (and cannot be) checked against the body.
+			p.next()
+			props, label := p.parseClauseTag()
+			start := p.peek().pos
+			e, err := p.parseExpr(0)
+			if err != nil {
+				return err
+			}
+			rhs := e
+			if b, ok := e.(*EBin); ok && b.Op == "==>" {
+				rhs = b.R
+			}
+			if _, ok := rhs.(*ECall); !ok {
+				return p.errf("establishes must have the form [cond ==>] ghostPred(args)")
+			}
+			fc.Clauses = append(fc.Clauses, &Clause{Kind: "establishes", E: e, Props: props, Label: label, Text: p.textSince(start)})
 		case "requires", "ensures":
 			p.next()
 			props, label := p.parseClauseTag()
@@ -896,9 +916,32 @@ func (p *parser) parseClauses(fc *FuncContract) error {
 				return p.errf("expected 'call' after 'at'")
 			}
 			p.next()
-			label, err := p.parseFuncLabel()
-			if err != nil {
-				return err
+			var label string
+			var except []string
+			if p.isOp("*") { // every call in the function ...
+				p.next()
+				label = "*"
+				if p.isID("except") { // ... except calls to these callees
+					p.next()
+					for {
+						l, err := p.parseFuncLabel()
+						if err != nil {
+							return err
+						}
+						except = append(except, l)
+						if p.isOp(",") {
+							p.next()
+							continue
+						}
+						break
+					}
+				}
+			} else {
+				var err error
+				label, err = p.parseFuncLabel()
+				if err != nil {
+					return err
+				}
 			}
 			if !p.isID("assert") {
 				return p.errf("expected assert")
@@ -910,7 +953,7 @@ func (p *parser) parseClauses(fc *FuncContract) error {
 			if err != nil {
 				return err
 			}
-			fc.Clauses = append(fc.Clauses, &Clause{Kind: "assert", Call: label, E: e, Props: props, Label: lab, Text: p.textSince(start)})
+			fc.Clauses = append(fc.Clauses, &Clause{Kind: "assert", Call: label, Except: except, E: e, Props: props, Label: lab, Text: p.textSince(start)})
 		default:
 			return nil // next declaration
 		}
